@@ -634,3 +634,35 @@ def _c19(prop, tier):
 
 TABLE["C19"] = dict(run=_c19, replay=lambda p, path: smallfam.replay(p, path, driver="checktool", trace_module="CheckTool_Trace", trace_consts="  Budget = 1\n",
                                                                       harness_extra=["-arg", _build_check_tool()]))
+
+# ------------------------------------------------------------------------------------------
+def _key_sys(call, evs):
+    i = call["input"]
+    return "system:dev=%s,transit=%s,trust=%s,lvl=%s,collat=%s,pol=%s,consumer=%s,logfit=%s" % (
+        i["dev"], i["transit"], i["trust"], i["lvl"], i["collat"], i["pol"], i["consumer"], i["logfit"])
+
+
+def _sys_run(prop, tier):
+    return smallfam.run(prop, tier, part=True, mc_module="TdxGuestSystem_MC",
+                        mc_cfg="SPECIFICATION Spec\nINVARIANTS TypeOK DeliveredOnlyIfAllHolds HonestRunIsDelivered MoreCheckingNeverDeliversMore ExportCase\nCHECK_DEADLOCK FALSE\n",
+                        driver="system", trace_module="TdxGuestSystem_Trace", trace_consts="", key_fn=_key_sys,
+                        required_actions=("Guest", "Parse", "Verify", "Validate", "Replay"),
+                        assumptions=["end to end through the public API of every package: scripted guest device, client.GetRawQuote, transit alteration, abi.QuoteToProto, verify.TdxQuote, validate.TdxQuote, rtmr.ParseCcelWithTdQuote on the sample event log"],
+                        rule="every combination of device behaviour, transit alteration, trust, option level, served collateral, policy, consumer and event-log fit (4320 cases) runs end to end; what is delivered must be what TdxGuestSystem delivers")
+
+
+def _c11(prop, tier):
+    t0 = _time.time()
+    _, v1, c1 = verifyfam.run(prop, tier, part=True)
+    _, v2, c2 = _sys_run(prop, tier)
+    return smallfam.combine(prop, tier, [("honest-worlds", v1, c1), ("end-to-end", v2, c2)], t0)
+
+
+def _c11_replay(prop, path):
+    rp = _json.load(open(path))
+    if "transit" in (rp.get("case") or {}):
+        return smallfam.replay(prop, path, driver="system", trace_module="TdxGuestSystem_Trace", trace_consts="")
+    return verifyfam.replay(prop, path)
+
+
+TABLE["C11"] = dict(run=_c11, replay=_c11_replay)
